@@ -361,8 +361,21 @@ def rule_problem_rename(ctx):
         per_formula = any(isinstance(x, tuple) and x[:1] in (("param",), ("place",)) and x != ("param", "self") and not str(x[1]).startswith(("self", "p.", "p")) for x in sym.subterms(clash))
         arity0 = ("bin", "Eq", ("place", "p.arity"), ("lit", 0)) in set(x for x in sym.subterms(clash) if isinstance(x, tuple))
         mapped = any(isinstance(x, tuple) and x[:2] == ("call", "Iterator::map") and x[2][0] == ("place", "self.formulas") for x in sym.subterms(v))
-        ok = whole and not per_formula and arity0 and mapped
-        why = "clash set from the whole problem's predicates: %s; depends on the formula being renamed: %s; arity-0 filter: %s; applied to every formula: %s" % (whole, per_formula, arity0, mapped)
+        # the clash set is exactly the 0-ary predicates of the whole problem: every predicate is looked at (a `take_while` stops at the first
+        # n-ary one), the only test is arity == 0
+        from .. import comp as _comp
+        _comp.use(fx)
+        PREDS_ = ("call", "Problem::predicates", (("param", "self"),))
+        want_set = ("coll", (((PREDS_,), ((frozenset({("eq", ("fieldof", ("at", PREDS_), "arity"), 0)}), ("at", PREDS_)),)),))
+        try:
+            cset = _comp.canon(clash)
+        except Exception:
+            cset = None
+        while isinstance(cset, tuple) and cset[:1] == ("call",) and cset[1] in ("FromIterator::from_iter", "Iterator::collect", "IndexSet::from_iter") and len(cset[2]) == 1:
+            cset = cset[2][0]
+        exact = cset == want_set
+        ok = whole and not per_formula and arity0 and mapped and exact
+        why = "clash set from the whole problem's predicates: %s; depends on the formula being renamed: %s; arity-0 filter: %s (over all predicates: %s); applied to every formula: %s" % (whole, per_formula, arity0, exact, mapped)
     ctx.add("NS", "problem-rename:one-clash-set", ok, ctx.site(b), "Problem::rename_conflicting_symbols: " + why, construct=v)
 
 
